@@ -8,7 +8,7 @@ from oracle import Oracle
 from simcore import Choices, Sim, LoopYield, HarnessError
 from simkernel import Kernel, IFINDEX, IFACES, MANAGED, AF_INET, AF_INET6
 
-PREFIX_POOL = [("10.1.0.0", 16), ("0.0.0.0", 0), ("10.2.3.0", 24), ("192.168.7.128", 25)]
+PREFIX_POOL = [("10.1.0.0", 16), ("0.0.0.0", 0), ("10.1.0.0", 24), ("10.2.3.0", 24), ("192.168.7.128", 25)]  # two lengths of one network address on purpose
 NH_POOL = ["172.16.1.1", "172.16.1.2", "172.16.1.3"]
 NH_MAC = {"172.16.1.1": "02:aa:00:00:01:01", "172.16.1.2": "02:aa:00:00:02:02", "172.16.1.3": "02:aa:00:00:03:03"}
 LAYOUTS = [("access", "access", "access"), ("access", "access", "core"),
@@ -45,7 +45,7 @@ class World:
         c = self.ch.choose
         cfg = {}
         cfg["profile"] = c(5, "swarm.profile")            # 0 = fault-free
-        cfg["n_prefix"] = [4, 3, 2, 4, 4, 3][c(6, "swarm.n_prefix")]
+        cfg["n_prefix"] = [5, 3, 2, 4, 5, 3][c(6, "swarm.n_prefix")]
         cfg["n_nh"] = [3, 2, 1, 3, 2, 3][c(6, "swarm.n_nh")]
         cfg["layout"] = c(len(LAYOUTS), "swarm.layout")
         cfg["max_ops"] = [25, 18, 12, 8, 5][c(5, "swarm.max_ops")]
@@ -130,12 +130,57 @@ class World:
         for t in self.threads:
             sim.at_ctl(sim.now, "pingloop", t)
         k.startup = False
+        k.unlocked_dump_hook = self.dump_gap
         b.fault_rate_n = cfg["rpc_n"]
         b.fault_budget = cfg["rpc_budget"]
         self.after_event("startup")
 
     # ------------------------------------------------------------------ scheduler
+    # ------------------------------------------------------------------ two threads
+    GAP_SLEEPS = [0.0, 0.0, 0.4, 3.0]
+
+    def dump_gap(self):
+        """Called from ndb.neighbours.dump().  Netlink handlers run on NDB's thread,
+        the ping loop on a thread of its own; what keeps them apart is the
+        controller's lock.  While a handler holds it nothing else can run and the
+        handler is atomic.  A handler that reads the neighbour table WITHOUT the
+        lock can be descheduled right after the read: the kernel goes on (ARP
+        replies arrive) and the other thread handles every netlink event that is
+        due, to completion; then the first one continues with its stale snapshot.
+        Whether and for how long is a recorded choice (0 = nothing happens)."""
+        sim, k = self.sim, self.k
+        if getattr(self, "in_gap", False) or not sim.in_handler or k.startup:
+            return
+        lock = getattr(self.rc, "_lock", None)
+        if lock is None or not hasattr(lock, "locked") or lock.locked():
+            return
+        self.unlocked_dumps = getattr(self, "unlocked_dumps", 0) + 1
+        c = self.ch.choose(len(self.GAP_SLEEPS), "gap")
+        if c == 0:
+            return
+        import heapq
+        self.in_gap = True
+        sim.ev("gap", c)
+        sim.sk("gap", c)
+        try:
+            d = self.GAP_SLEEPS[c]
+            if d:
+                sim.sleep(d)
+            n = 0
+            while sim.cheap and sim.cheap[0][0] <= sim.now and sim.cheap[0][2] == "nl" and n < 16:
+                _, _, _, data = heapq.heappop(sim.cheap)
+                n += 1
+                self.deliver(*data)
+                sim.in_handler = True      # (deliver cleared it: we are still inside the outer handler)
+            if n:
+                self.gap_deliveries = getattr(self, "gap_deliveries", 0) + n
+        finally:
+            self.in_gap = False
+            sim.in_handler = True
+
     def after_event(self, what):
+        if getattr(self, "in_gap", False):
+            return      # the outer handler has not finished: nothing to judge yet
         if self.b.unsupported:
             raise HarnessError("code under test called unmodelled BESS RPC(s): %s" % sorted(set(self.b.unsupported)))
         self.orc.observe()
